@@ -589,7 +589,59 @@ def case_fileslist(c, xz, sd, res, verbose=False):
         res.fails.append(("cli:files-list:decompress", f"xz -d {opt} with names {[n + '.xz' for n in names]}: status {rc}, files {sorted(after)} ({err.decode(errors='replace').strip()[:120]})", rj))
 
 
-RUNNERS = {"name": case_name, "meta": case_meta, "seq": case_seq, "unpriv": case_unpriv, "fileslist": case_fileslist}
+def _run_raw(xz, args, cwd, stdin_bytes=None, extra_env=None):
+    try:
+        p = subprocess.run([xz] + args, cwd=cwd, input=stdin_bytes if stdin_bytes is not None else b"", stdout=subprocess.PIPE, stderr=subprocess.PIPE,
+                           env=dict({"PATH": "/usr/bin:/bin", "LC_ALL": "C"}, **(extra_env or {})), timeout=TIMEOUT_S)
+        return p.returncode, p.stdout, p.stderr
+    except subprocess.TimeoutExpired:
+        return None, b"", b""
+
+
+def _view(sd):
+    """what a user sees of a directory, without inode numbers (two directories are compared)"""
+    return {k: (v[1], v[2], v[3], v[4], v[5], v[6], v[7]) for k, v in snapshot(sd).items()}
+
+
+def case_modepair(c, xz, sd, res, verbose=False):
+    """Operation-mode options override each other: `xz A B file` (also with A from XZ_DEFAULTS / XZ_OPT) behaves exactly like `xz B file`."""
+    a, b, via, dec_input = c["a"], c["b"], c["via"], c["xzinput"]
+    rj = json.dumps(c); name = "f.xz" if dec_input else "f"; content = encode("xz", PLAIN) if dec_input else PLAIN
+    views = []
+    for variant in (0, 1):
+        d = os.path.join(sd, "v%d" % variant); os.mkdir(d)
+        make_source(d, "regular", 0o640, name, content)
+        if variant == 0:
+            argv, env = ([a, b, name], None) if via == "argv" else ([b, name], {via: a})
+        else:
+            argv, env = [b, name], None
+        rc, out, err = _run_raw(xz, argv, d, extra_env=env)
+        views.append((rc, out, _view(d)))
+        res.add("evals"); res.add("cli_modepair_runs")
+    res.add("distinct")
+    res.obs.add(f"modepair {a} then {b} via {via} on {'xz' if dec_input else 'plain'} input: rc {views[1][0]}")
+    if views[0] != views[1]:
+        (r0, o0, v0), (r1, o1, v1) = views
+        res.fails.append(("cli:mode-option-not-overridden", f"xz {a} {b} {name} (first option via {via}) differs from xz {b} {name}: status {r0} vs {r1}, stdout {len(o0)} vs {len(o1)} bytes, files {sorted(v0)} vs {sorted(v1)}", rj))
+
+
+def case_dashop(c, xz, sd, res, verbose=False):
+    """`-` among the operands means standard input -> standard output; the file operands around it are handled as usual."""
+    order, dec = c["order"], c["dec"]
+    rj = json.dumps(c); D = b"data that comes from standard input\n" * 3
+    fname = "f.xz" if dec else "f"
+    make_source(sd, "regular", 0o644, fname, encode("xz", PLAIN) if dec else PLAIN)
+    ops = ["-", fname] if order == 0 else [fname, "-"]
+    rc, out, err = _run_raw(xz, (["-d"] if dec else []) + ops, sd, stdin_bytes=encode("xz", D) if dec else D)
+    after = snapshot(sd); res.add("evals"); res.add("cli_dash_runs"); res.add("distinct")
+    tgt = "f" if dec else "f.xz"
+    ok_out = (out == D) if dec else decodes_to("xz", out, D)
+    ok_file = set(after) == {tgt} and ((read_file(os.path.join(sd, tgt)) == PLAIN) if dec else decodes_to("xz", read_file(os.path.join(sd, tgt)), PLAIN))
+    if rc != 0 or not ok_out or not ok_file:
+        res.fails.append(("cli:dash-operand", f"xz {'-d ' if dec else ''}{' '.join(ops)}: status {rc}, standard output {'ok' if ok_out else 'WRONG (%d bytes)' % len(out)}, files {sorted(after)} (expected only {tgt} with the converted content) {err.decode(errors='replace').strip()[:120]}", rj))
+
+
+RUNNERS = {"name": case_name, "meta": case_meta, "seq": case_seq, "unpriv": case_unpriv, "fileslist": case_fileslist, "modepair": case_modepair, "dashop": case_dashop}
 
 
 def run_chunk(args):
@@ -707,6 +759,21 @@ def grid_meta(tier):
     return cases
 
 
+def grid_modes(tier):
+    cases = []
+    MODEOPTS = ["-z", "-d", "-t", "-l"]
+    for a in MODEOPTS:
+        for b in MODEOPTS:
+            if a != b:
+                for via in ("argv", "XZ_DEFAULTS", "XZ_OPT"):
+                    for xzinput in (False, True):
+                        cases.append({"t": "modepair", "a": a, "b": b, "via": via, "xzinput": xzinput})
+    for order in (0, 1):
+        for dec in (False, True):
+            cases.append({"t": "dashop", "order": order, "dec": dec})
+    return cases
+
+
 def grid_seq(tier):
     cases = []
     flagsets = [[], ["--no-warn"], ["-q"], ["-qq"], ["-Q", "-q"], ["-k"], ["-Q", "-qq"]]
@@ -813,7 +880,7 @@ def explore(ck, tier, root):
     ck.notes.append(f"A2 python model cross-validation in {time.time() - t0:.1f}s")
     # ---- A3 + B
     plan = [("A3 names via CLI", grid_names(tier)), ("B1/B2 metadata+overwrite grid", grid_meta(tier)),
-            ("B3 multi-file exit status", grid_seq(tier)), ("B4 unprivileged owner", grid_unpriv(tier))]
+            ("B3 multi-file exit status", grid_seq(tier)), ("B4 unprivileged owner", grid_unpriv(tier)), ("B5 mode options and the - operand", grid_modes(tier))]
     deadline = ck.deadline - 10
     seen_tags = set()
     ctx = multiprocessing.get_context("fork")
